@@ -30,6 +30,11 @@ struct Ghost {
   bool in_cleanup[kMaxT] = {};
   bool exited[kMaxT] = {};
   bool in_first_getid[kMaxT] = {};
+  bool in_pure_getid[kMaxT] = {};     // inside a direct IDManager::GetThreadID call (nothing but the claim runs)
+  uint64_t getid_steps[kMaxT] = {};   // steps spent inside the first GetThreadID since the ghost ID table last changed
+  uint64_t table_version = 0;
+  uint64_t seen_version[kMaxT] = {};
+  bool starve_reported = false;
   int last_owner[64];
   std::vector<HB> hb_by_id[64];
   std::vector<std::weak_ptr<size_t>> own_hb[kMaxT];
@@ -67,6 +72,7 @@ s(size_t v)
 struct Worker {
   int me = -1;
   EpochGuard guard{};
+  EpochGuard parked{};  // a named, always-empty guard that outlives the operations (GUARD_END 2 assigns from it)
   bool has_guard = false;
   const std::vector<size_t> *list = nullptr;
   std::vector<size_t> snap;
@@ -111,6 +117,7 @@ struct Worker {
       }
       g.last_owner[id] = me;
       g.id[me] = id;
+      g.table_version++;
       X->out.ids_issued++;
       const size_t start = X->c->threads[me].probe % kCap;
       if (id <= start) X->out.probe_wrapped = true;
@@ -133,7 +140,9 @@ struct Worker {
         if (g.in_cleanup[t] && !g.exited[t]) X->out.claim_overlaps_exit = true;
       }
     }
+    g.in_pure_getid[me] = first;
     const size_t id = IDManager::GetThreadID();
+    g.in_pure_getid[me] = false;
     g.in_first_getid[me] = false;
     judge_id(id, first);
     return id;
@@ -172,6 +181,8 @@ struct Worker {
     }
     if (how == 0) {
       guard = EpochGuard{};
+    } else if (how == 2) {
+      guard = std::move(parked);  // move assignment from a named empty guard: must release the pin right now
     } else {
       guard.~EpochGuard();
       new (&guard) EpochGuard{};
@@ -283,6 +294,7 @@ struct Worker {
         }
         g.pin_possible[me] = true;
         g.pin_events++;
+        const std::vector<size_t> *lp = nullptr;
         if (op.a == 0) {
           guard = mgr->CreateEpochGuard();
         } else {
@@ -291,18 +303,22 @@ struct Worker {
           auto [gd, l] = mgr->GetProtectedEpochs();
           g.in_getprot[me] = false;
           guard = std::move(gd);
-          list = &l;
-          const size_t e = guard.GetProtectedEpoch();
-          check_list_shape(l, e, "GetProtectedEpochs");
-          snap = l;
+          lp = &l;
         }
+        // ghost ID table first: no scheduling point lies between the call's return and this update
+        judge_id(IDManager::GetThreadID(), first);
         g.in_first_getid[me] = false;
         has_guard = true;
-        g.epoch[me] = guard.GetProtectedEpoch();
+        const size_t e = guard.GetProtectedEpoch();  // (a scheduling point; the guard is not yet "completely created" for the ghost)
+        g.epoch[me] = e;
         g.serial[me]++;
         g.alive[me] = true;
         X->out.guards++;
-        judge_id(IDManager::GetThreadID(), first);
+        if (lp != nullptr) {
+          list = lp;
+          check_list_shape(*lp, e, "GetProtectedEpochs");
+          snap = *lp;
+        }
         break;
       }
       case GUARD_MOVE: {
@@ -322,7 +338,7 @@ struct Worker {
         if (guard.GetProtectedEpoch() != e0) report("GUARD-MOVE", "moving a guard changed the epoch it reports from " + s(e0) + " to " + s(guard.GetProtectedEpoch()));
         break;
       }
-      case GUARD_END: end_guard(static_cast<int>(op.a & 1U)); break;
+      case GUARD_END: end_guard(static_cast<int>(op.a % 3U)); break;
       case CHECK_LIST:
         if (has_guard && list != nullptr) {
           if (*list != snap) report("LIST-STABLE", "the list handed out with the guard (epoch " + s(g.epoch[me]) + ") changed while the guard was alive");
@@ -423,6 +439,36 @@ struct Worker {
   }
 };
 
+// C14: while fewer than `capacity` threads hold IDs, a claiming thread must find a free one: it may not keep
+// probing (several full sweeps long) while the ghost ID table does not change and shows a free ID
+void
+step_cb(int t)
+{
+  if (X == nullptr || X->phase != 1 || t < 0 || t >= kMaxT) return;
+  auto &g = X->g;
+  if (!g.in_pure_getid[t]) return;
+  if (g.seen_version[t] != g.table_version) {
+    g.seen_version[t] = g.table_version;
+    g.getid_steps[t] = 0;
+    return;
+  }
+  int owned = 0;
+  bool other_claiming = false;
+  for (int u = 0; u < kMaxT; u++) {
+    if (g.id[u] != kNone && !g.exited[u]) owned++;
+    if (u != t && g.in_first_getid[u]) other_claiming = true;
+  }
+  if (owned >= static_cast<int>(kCap) || other_claiming) {
+    g.getid_steps[t] = 0;
+    return;
+  }
+  if (++g.getid_steps[t] > 2 * kCap + 4 && !g.starve_reported) {  // a sweep over an unchanged table with a free ID takes at most capacity + 1 steps
+    g.starve_reported = true;
+    report("ID-STARVE", "T" + s(static_cast<size_t>(t)) + " keeps probing inside GetThreadID although only " + s(static_cast<size_t>(owned)) + " of " + s(kCap)
+                            + " IDs are held and nobody else is claiming or releasing");
+  }
+}
+
 void
 body_done_cb(int t)
 {
@@ -437,6 +483,7 @@ thread_exit_cb(int t)
   if (X == nullptr || X->phase != 1) return;
   auto &g = X->g;
   g.exited[t] = true;
+  g.table_version++;
   X->live_threads--;
   if (X->live_threads > 0) X->out.thread_churn = true;
   for (auto &w : g.own_hb[t]) {
@@ -477,6 +524,7 @@ run_case(const Case &c, const vsched::Config &cfg, Outcome &out, int *phase_out)
   for (auto &v : ctx.g.last_owner) v = -1;
   vsched::on_body_done(body_done_cb);
   vsched::on_thread_exit(thread_exit_cb);
+  vsched::on_step(step_cb);
   vsched::heap_track(vsched::HeapClass{0, 64});
   if (c.use_epoch) {
     vsched::heap_lib_scope(true);
@@ -524,6 +572,7 @@ run_case(const Case &c, const vsched::Config &cfg, Outcome &out, int *phase_out)
   }
   *phase_out = 3;
   out = ctx.out;
+  w.clear();  // every guard object of the workers dies before the manager does
   delete ctx.mgr;
   X = nullptr;
 }
